@@ -103,8 +103,18 @@ Theorem C19_implicit_last_total_mass :
 Proof. exact implicit_last_total_mass. Qed.
 Print Assumptions C19_implicit_last_total_mass.
 
-(* the TEXT the parser builds, "1-" + "-".join(probabilities), denotes 1 - p1 - ... - pk when
-   every listed probability is spelled as a term (no top-level + or -) ... *)
+(* _assign_categorical (since /repo commit 1ab34b4) parses every listed probability text on its own
+   and takes 1 - sum: right for EVERY spelling of the probabilities *)
+Theorem C19_implicit_last_parsed_separately :
+  forall (ps : list sx) (ts : list (list tok)), Forall2 (pr 0) ps ts ->
+    implicit_fixed ts = Some (XSub (XNum 1 0) (sum_sx ps)) /\
+    forall s vs, Forall2 (fun p v => sx_eval p s = Some v) ps vs ->
+      sx_eval (XSub (XNum 1 0) (sum_sx ps)) s = Some (1 - fold_right Qcplus 0 vs).
+Proof. exact implicit_last_parsed_separately. Qed.
+Print Assumptions C19_implicit_last_parsed_separately.
+
+(* the construction before that commit (regression witness): the TEXT "1-" + "-".join(probabilities)
+   denotes 1 - p1 - ... - pk when every listed probability is spelled as a term (no top-level + or -) ... *)
 Theorem C19_implicit_last_tokens :
   forall (ps : list sx) (ts : list (list tok)), Forall2 (pr 1) ps ts ->
     parse_expr (implicit_tokens ts) = Some (implicit_sx ps).
